@@ -161,8 +161,24 @@ def make_coverage(gene, table, region_cov):
     return c
 
 
-def plant(rng, ga):
-    """a planted sample in RefSeq terms: structure, alleles (major, minor), depth, noise factors"""
+def divergent_keys(ga, gb):
+    """RefSeq keys of catalogue variants whose genome position carries a DIFFERENT region label in the two builds (the two region
+    tables are independent data): the sites where a decision keyed on region names can depend on the build"""
+    kb = {(v[3], v[4]): m for m, v in gb.mutations.items()}
+    out = []
+    for m, v in ga.mutations.items():
+        mb = kb.get((v[3], v[4]))
+        if mb is None:
+            continue
+        ra, rb = ga.region_at(m[0]), gb.region_at(mb[0])
+        if (ra[1] if ra else None) != (rb[1] if rb else None):
+            out.append((v[3], v[4]))
+    return sorted(out, key=str)
+
+
+def plant(rng, ga, gb=None):
+    """a planted sample in RefSeq terms: structure, alleles (major, minor), depth, noise factors; optionally catalogue variants
+    the copy's allele does not have (novel to the allele: `extra`) and silent variants of the allele left out (`drop`)"""
     from aldy.gene import CNConfigType
     structure = ["1", "1"]
     if ga.do_copy_number and rng.random() < 0.4:
@@ -173,17 +189,49 @@ def plant(rng, ga):
     for s in structure:
         if s == "1":
             copies.append(rng.choice(pool))
-    return {"structure": structure, "copies": copies, "depth": rng.choice([20, 30, 40]), "noise": rng.choice([0.0, 0.0, 0.05, 0.1]),
-            "nseed": rng.randrange(2 ** 30)}
+    plan = {"structure": structure, "copies": copies, "depth": rng.choice([20, 30, 40]), "noise": rng.choice([0.0, 0.0, 0.05, 0.1]),
+            "nseed": rng.randrange(2 ** 30), "extra": [], "drop": []}
+    if gb is not None and copies and rng.random() < 0.6:
+        kb = {(v[3], v[4]) for v in gb.mutations.values()}
+        both = {(v[3], v[4]): m for m, v in ga.mutations.items() if (v[3], v[4]) in kb}
+        div = [k for k in divergent_keys(ga, gb) if k in both]
+        subs = [k for k in both if ">" in k[1] and len(k[1]) == 3]
+        for _ in range(rng.choice([1, 1, 2])):
+            ci = rng.randrange(len(copies))
+            a, mi = copies[ci]
+            have = set(ga.alleles[a].func_muts) | set(ga.alleles[a].minors[mi].neutral_muts)
+            taken = {m.pos for m in have} | {both[tuple(x[1:])][0] for x in plan["extra"] if x[0] == ci}
+            # sites whose region label differs between the builds first, then any catalogued substitution
+            cand = [k for k in (div if div and rng.random() < 0.7 else subs) if both[k][0] not in taken and not k[1].startswith("del")]
+            if cand:
+                k = rng.choice(cand)
+                plan["extra"].append([ci, k[0], k[1]])
+        if rng.random() < 0.3:
+            ci = rng.randrange(len(copies))
+            a, mi = copies[ci]
+            neutral = [ga.mutations[(m.pos, m.op)] for m in ga.alleles[a].minors[mi].neutral_muts if (m.pos, m.op) in ga.mutations]
+            neutral = [(v[3], v[4]) for v in neutral if (v[3], v[4]) in both]
+            if neutral:
+                k = rng.choice(sorted(neutral, key=str))
+                plan["drop"].append([ci, k[0], k[1]])
+    return plan
 
 
 def table_for(gene, plan, refkey_of_site):
     """ideal pileup counts of the planted copies in this build (+ noise factors drawn per RefSeq key, so both builds get the same)"""
     d = plan["depth"]
     copies = []
-    for a, mi in plan["copies"]:
+    by_ref = {(v[3], v[4]): m for m, v in gene.mutations.items()}
+    for ci, (a, mi) in enumerate(plan["copies"]):
         al = gene.alleles[a]
-        copies.append((a, set(al.func_muts) | set(al.minors[mi].neutral_muts)))
+        vs = set((m.pos, m.op) for m in set(al.func_muts) | set(al.minors[mi].neutral_muts))
+        for cj, rp, rop in plan.get("extra", []):
+            if cj == ci and (rp, rop) in by_ref:
+                vs.add(by_ref[rp, rop])
+        for cj, rp, rop in plan.get("drop", []):
+            if cj == ci and (rp, rop) in by_ref:
+                vs.discard(by_ref[rp, rop])
+        copies.append((a, vs))
     sites = sorted({pos for (pos, _) in gene.mutations})
     table = {}
 
@@ -269,13 +317,16 @@ def shipped_stream(chk, n_per_gene, budget_s):
         site_key_b = lambda pos, g=gb: g.chr_to_ref.get(pos)
         big = len(ga.alleles) > 150
         for k in range(1 if big else n_per_gene):
-            plan = plant(rng, ga)
+            plan = plant(rng, ga, gb)
             ta, rca = table_for(ga, plan, site_key_a)
             tb, rcb = table_for(gb, plan, site_key_b)
             ra = run_stages(ga, make_coverage(ga, ta, rca))
             rb = run_stages(gb, make_coverage(gb, tb, rcb))
             diffs = compare(ra, rb)
             case = {"gene": n, "plan": plan}
+            chk.count("shipped", "plans-with-extra-variants" if plan["extra"] else "plans-exact")
+            if any(tuple(x[1:]) in set(divergent_keys(ga, gb)) for x in plan["extra"]):
+                chk.count("shipped", "plans-with-extra-variant-at-a-site-labelled-differently")
             chk.case("shipped", case, nontrivial=not isinstance(ra, str) and bool(plan["copies"]),
                      sample={"gene": n, "plan": plan, "hg19": ra if isinstance(ra, str) else ra[:1]})
             for cl, txt in diffs.items():
